@@ -47,9 +47,8 @@ def handle (args : List String) : String :=
       match findIdx? name with
       | none => "unknown-program"
       | some i => if tclosed i then "1" else "0"
-  | ["norm", lib, kind] => Id.run do
-      -- what `normalise` does with None / an int / a generator (`lib` only names the Python normaliser family)
-      if lib ≠ "numpy" && lib ≠ "python" then return "bad-op"
+  | ["norm", kind] => Id.run do
+      -- what `normalise` does with None / an int / a generator
       let st0 : St := { heap := [5], gNumpy := 1, gPython := 2, gTorch := 3, entropy := 10, trace := [] }
       let st1 : St := { st0 with entropy := 11 }
       match kind with
